@@ -1,5 +1,5 @@
 """C10 — a crash during persistence never loses a completed flush nor mixes snapshots (structural clauses)."""
-from ..ir import callee, short, walk, ctor_name, pat_variants, guards, AnchorMissing
+from ..ir import callee, short, walk, ctor_name, pat_variants, guards, strip_not, AnchorMissing
 from ..trace import Tracer, ok_exits, err_exits, base
 from ..prov import Bindings
 from .common import *
@@ -226,12 +226,37 @@ def rule_c(prog, rep):
     # validate compares what was read back with the data
     v = crate.fn(f'{J3}::validate_file_content')
     vb = Bindings(crate, v)
-    cmp_ = [nd for nd, a in crate.walk_fn(v) if nd.get('k') == 'binary' and nd.get('op') in ('Ne', 'Eq')]
-    if cmp_ and any('param(data)' in x for x in vb.origins(cmp_[0]['l']) | vb.origins(cmp_[0]['r'])) and \
-            any(ctor_name(nd) and 'DataMismatch' in ctor_name(nd) for nd, a in crate.walk_fn(v)):
-        rep.ok('C10.c', 'validate_file_content', v.loc, 'reads the file back and compares with the data')
+    mm = [(nd, a) for nd, a in crate.walk_fn(v) if ctor_name(nd) and 'DataMismatch' in ctor_name(nd)]
+    good = False
+    if len(mm) == 1:
+        g = [it for it in guards(mm[0][1] + (mm[0][0],)) if it[0] == 'if']
+        if len(g) == 1:
+            c, pol = strip_not(g[0][1])
+            if c.get('k') == 'binary' and c.get('op') in ('Ne', 'Eq'):
+                # the error is raised exactly when the two differ
+                differs_on_true = (c['op'] == 'Ne') == pol
+                lo, ro = vb.origins(c['l']), vb.origins(c['r'])
+                rd = [x for x, _ in crate.walk_fn(v) if x.get('k') == 'call' and short(callee(x)) == 'read_to_end']
+                buf_ids = set()
+                for r_ in rd:
+                    for y, _ in walk(r_['args'][1] if len(r_['args']) > 1 else {}):
+                        if y.get('k') == 'path' and y.get('res') == 'local':
+                            buf_ids.add(y.get('id'))
+                sides = [c['l'], c['r']]
+                has_data = any(vb.origins(x) == {'param(data)'} for x in sides)
+                has_buf = any(any(y.get('k') == 'path' and y.get('id') in buf_ids for y, _ in walk(x)) for x in sides)
+                good = (g[0][2] == differs_on_true) and has_data and has_buf and bool(rd)
+    # the error leaves the function (Err(..)? or return Err(..))
+    if good:
+        nd, anc = mm[0]
+        chain = [x for x in anc if isinstance(x, dict)]
+        good = any(x.get('k') in ('try', 'return') for x in chain[-3:]) or \
+            (chain and chain[-1].get('k') == 'call' and short(ctor_name(chain[-1]) or '') == 'Err')
+    if good:
+        rep.ok('C10.c', 'validate_file_content', v.loc, 'reads the file back; Err(DataMismatch) exactly when it differs from the data')
     else:
-        rep.violation('C10.c', 'validate_file_content', v.loc, 'no comparison of the file content with the data', key='C10.c/validate')
+        rep.violation('C10.c', 'validate_file_content', v.loc, 'does not fail exactly when the content read back differs from the data',
+                      key='C10.c/validate')
     # write_and_check: data file then checksum file, checksum of the same data
     w = crate.fn(f'{J3}::write_and_check')
     wb_ = Bindings(crate, w)
